@@ -101,7 +101,7 @@ theorem interpret_cell (ctx : Ctx) (c : CellRec) (hwf : c.WF) (v : Val)
     have hl : (Content.rk w).bytes.length = 4 := rfl
     rw [hid]
     unfold interpret
-    rw [if_pos rfl, if_neg (by omega), if_neg (by omega), hu]
+    rw [if_pos rfl, if_neg (by omega), hu]
     congr 1
     rw [hshape]
     simp only [Content.bytes, le32, List.cons_append, List.nil_append]
@@ -436,21 +436,10 @@ theorem u32le_append (p t : Bytes) (h : 4 ≤ p.length) : u32le (p ++ t) = u32le
   rw [List.getElem?_append_left (by omega), List.getElem?_append_left (by omega),
     List.getElem?_append_left (by omega), List.getElem?_append_left (by omega)]
 
-theorem parseDimensions_fillBuf (buf p : Bytes) (h : 16 ≤ p.length) :
-    parseDimensions (fillBuf buf p) = parseDimensions p := by
-  unfold fillBuf
-  split
-  · rfl
-  · unfold parseDimensions
-    rw [u32le_append _ _ (by omega)]
-    rw [List.drop_append_of_le_length (by omega), u32le_append _ _ (by simp; omega)]
-    rw [List.drop_append_of_le_length (by omega), u32le_append _ _ (by simp; omega)]
-    rw [List.drop_append_of_le_length (by omega), u32le_append _ _ (by simp; omega)]
+theorem parseDimensions_fillBuf (buf p : Bytes) (_h : 16 ≤ p.length) :
+    parseDimensions (fillBuf buf p) = parseDimensions p := rfl
 
-theorem fillBuf_length_ge (buf p : Bytes) : p.length ≤ (fillBuf buf p).length := by
-  unfold fillBuf; split
-  · exact Nat.le_refl _
-  · simp
+theorem fillBuf_length_ge (buf p : Bytes) : p.length ≤ (fillBuf buf p).length := Nat.le_refl _
 
 /-- `XlsbCellsReader::new` on an encoded prologue: anything up to BrtWsDim, segments (records and skipped
     blocks) up to BrtBeginSheetData; the reader is left on the first record of the sheet data -/
@@ -527,7 +516,7 @@ theorem decodeSheet_enc (ctx : Ctx) (pre1 pre2 : List Seg) (dims : Bytes) (dw : 
     (hok : ∀ d ∈ data, d.item.OK ctx) :
     decodeSheet ctx (sheetBytes pre1 dims dw dl pre2 bp bw bl data ew el post)
       = Range.fromSparse (specCells ctx (data.map (·.item)) 0) := by
-  unfold decodeSheet sheetBytes
+  unfold decodeSheet sheetCells sheetBytes
   rw [newReader_enc pre1 pre2 dims dw dl bp bw bl _ h1 h2 hd hb]
   simp only [dimLen]
   have hlen := encodeItems_length_ge data
@@ -628,11 +617,7 @@ theorem specCells_insert_raw (ctx : Ctx) (id : Nat) (p : Bytes) (l2 : List Item)
 /-! ### shared strings -/
 
 theorem fillBuf_drop1 (buf : Bytes) (b : UInt8) (p : Bytes) :
-    ∃ tail, (fillBuf buf (b :: p)).drop 1 = p ++ tail := by
-  unfold fillBuf
-  split
-  · exact ⟨[], by simp⟩
-  · exact ⟨buf.drop (b :: p).length, by simp⟩
+    ∃ tail, (fillBuf buf (b :: p)).drop 1 = p ++ tail := ⟨[], by simp [fillBuf]⟩
 
 theorem sstItems_enc (post : Bytes) : ∀ (strs : List (List Nat × Bool × Nat)) (fuel : Nat) (buf : Bytes) (acc : List (List Nat)),
     (∀ s ∈ strs, s.1.length < 100000000 ∧ ∀ u ∈ s.1, u < 65536) → 0 < fuel →
@@ -677,11 +662,9 @@ theorem readSharedStrings_enc (total : Nat) (hw : Bool) (hl : Nat) (strs : List 
   rw [if_neg (by simp only [List.length_append, le32_length] at hge; omega)]
   have hcount : u32le ((fillBuf b' (le32 total ++ le32 strs.length)).drop 4) = strs.length := by
     unfold fillBuf
-    split
-    · rw [List.drop_left' (le32_length _)]
-      have := u32le_le32 strs.length hn []
-      simpa using this
-    · rw [List.append_assoc, List.drop_left' (le32_length _), u32le_le32 _ hn]
+    rw [List.drop_left' (le32_length _)]
+    have := u32le_le32 strs.length hn []
+    simpa using this
   rw [hcount, sstItems_enc post strs _ _ [] h (by omega)]
   simp
 
@@ -982,5 +965,315 @@ theorem fromSparse_ne_fuel {α : Type} [Inhabited α] (cells : List (Nat × Nat 
           · simp
           · rename_i hf
             exact absurd hf (sparse_fold_ne_fuel _ _ _ _ _ _ (by simp))
+
+/-! ### no panics: every short or inconsistent record is an `Err` -/
+
+theorem readType_ne_panic (bs : Bytes) (m : String) : readType bs ≠ .panic m := by
+  unfold readType; split
+  · simp
+  · split
+    · simp
+    · split <;> simp
+
+theorem readLenGo_ne_panic (m : String) : ∀ (f i acc : Nat) (prev : UInt8) (bs : Bytes), readLenGo f i acc prev bs ≠ .panic m
+  | 0, _, _, _, _ => by simp [readLenGo]
+  | f+1, i, acc, prev, bs => by
+    simp only [readLenGo]
+    split
+    · simp
+    · split
+      · simp
+      · exact readLenGo_ne_panic m f _ _ _ _
+
+theorem readLen_ne_panic (bs : Bytes) (m : String) : readLen bs ≠ .panic m := by
+  unfold readLen; split
+  · simp
+  · exact readLenGo_ne_panic m _ _ _ _ _
+
+theorem readRecord_ne_panic (bs : Bytes) (m : String) : readRecord bs ≠ .panic m := by
+  unfold readRecord
+  cases ht : readType bs with
+  | ok v =>
+    obtain ⟨t, r⟩ := v
+    simp only
+    cases hl : readLen r with
+    | ok w => obtain ⟨len, r'⟩ := w; simp only; split <;> simp
+    | err e => simp
+    | panic s => exact absurd hl (readLen_ne_panic r s)
+    | outOfFuel => simp
+  | err e => simp
+  | panic s => exact absurd ht (readType_ne_panic bs s)
+  | outOfFuel => simp
+
+theorem fillBuffer_ne_panic (buf bs : Bytes) (m : String) : fillBuffer buf bs ≠ .panic m := by
+  unfold fillBuffer
+  cases hl : readLen bs with
+  | ok w => obtain ⟨len, r'⟩ := w; simp only; split <;> simp
+  | err e => simp
+  | panic s => exact absurd hl (readLen_ne_panic bs s)
+  | outOfFuel => simp
+
+theorem wideStr_ne_panic (b : Bytes) (m : String) : wideStr b ≠ .panic m := by
+  unfold wideStr; split
+  · simp
+  · split <;> simp
+
+/-- a failing record is an `Err`, never a panic -/
+theorem interpret_fail_err (ctx : Ctx) (t : Nat) (p : Bytes) (r : Res Unit) (h : interpret ctx t p = .fail r) :
+    ∃ e, r = .err e := by
+  unfold interpret at h
+  have hw := wideStr_ne_fuel (p.drop 8)
+  have hp := wideStr_ne_panic (p.drop 8)
+  repeat' split at h
+  all_goals first
+    | (rename_i hh; exact absurd hh hw)
+    | (rename_i hh; exact absurd hh (hp _))
+    | (injection h with h; subst h; exact ⟨_, rfl⟩)
+    | cases h
+
+theorem readCells_ne_panic (ctx : Ctx) (m : String) : ∀ (f : Nat) (bs : Bytes) (row : Nat), readCells ctx f bs row ≠ .panic m
+  | 0, _, _ => by simp [readCells]
+  | f+1, bs, row => by
+    rw [readCells]
+    cases hr : readRecord bs with
+    | ok v =>
+      obtain ⟨t, p, rest⟩ := v
+      simp only
+      cases hi : interpret ctx t p with
+      | value col v =>
+        simp only
+        cases hc : readCells ctx f rest row with
+        | ok l => simp
+        | err e => simp
+        | panic s => exact absurd hc (readCells_ne_panic ctx s f rest row)
+        | outOfFuel => simp
+      | row r =>
+        simp only
+        split
+        · simp
+        · exact readCells_ne_panic ctx m f rest r
+      | stop => simp
+      | skip => exact readCells_ne_panic ctx m f rest row
+      | fail r =>
+        obtain ⟨e, rfl⟩ := interpret_fail_err ctx t p r hi
+        simp
+    | err e => simp
+    | panic s => exact absurd hr (readRecord_ne_panic bs s)
+    | outOfFuel => simp
+
+theorem skipToEnd_ne_panic (e : Nat) (m : String) : ∀ (f : Nat) (buf bs : Bytes), skipToEnd e f buf bs ≠ .panic m
+  | 0, _, _ => by simp [skipToEnd]
+  | f+1, buf, bs => by
+    rw [skipToEnd]
+    cases ht : readType bs with
+    | ok v =>
+      obtain ⟨t, r⟩ := v
+      simp only
+      split
+      · simp
+      · cases hf : fillBuffer buf r with
+        | ok w => obtain ⟨len, b', r'⟩ := w; exact skipToEnd_ne_panic e m f b' r'
+        | err e => simp
+        | panic s => exact absurd hf (fillBuffer_ne_panic buf r s)
+        | outOfFuel => simp
+    | err e => simp
+    | panic s => exact absurd ht (readType_ne_panic bs s)
+    | outOfFuel => simp
+
+theorem nextSkipBlocks_ne_panic (target : Nat) (bounds : List (Nat × Option Nat)) (m : String) :
+    ∀ (f : Nat) (buf bs : Bytes), nextSkipBlocks target bounds f buf bs ≠ .panic m
+  | 0, _, _ => by simp [nextSkipBlocks]
+  | f+1, buf, bs => by
+    rw [nextSkipBlocks]
+    cases ht : readType bs with
+    | ok v =>
+      obtain ⟨t, r⟩ := v
+      simp only
+      cases hf : fillBuffer buf r with
+      | ok w =>
+        obtain ⟨len, b1, r1⟩ := w
+        simp only
+        split
+        · simp
+        · split
+          · rename_i e he
+            cases hk : skipToEnd e f b1 r1 with
+            | ok u =>
+              obtain ⟨b2, r2⟩ := u
+              simp only
+              cases hf2 : fillBuffer b2 r2 with
+              | ok w2 => obtain ⟨len3, b3, r3⟩ := w2; exact nextSkipBlocks_ne_panic target bounds m f b3 r3
+              | err e => simp
+              | panic s => exact absurd hf2 (fillBuffer_ne_panic _ _ s)
+              | outOfFuel => simp
+            | err e => simp
+            | panic s => exact absurd hk (skipToEnd_ne_panic e s f b1 r1)
+            | outOfFuel => simp
+          · exact nextSkipBlocks_ne_panic target bounds m f b1 r1
+      | err e => simp
+      | panic s => exact absurd hf (fillBuffer_ne_panic buf r s)
+      | outOfFuel => simp
+    | err e => simp
+    | panic s => exact absurd ht (readType_ne_panic bs s)
+    | outOfFuel => simp
+
+theorem newReader_ne_panic (bs : Bytes) (m : String) : newReader bs ≠ .panic m := by
+  unfold newReader
+  cases h1 : nextSkipBlocks 0x0094 [(0x0081, none), (0x0093, none)] (bs.length + 1) [] bs with
+  | ok v =>
+    obtain ⟨n, buf, rest⟩ := v
+    simp only
+    split
+    · simp
+    · cases h2 : nextSkipBlocks 0x0091 [(0x0085, some 0x0086), (0x0025, some 0x0026), (0x01E5, none), (0x0186, some 0x0187)]
+          (bs.length + 1) buf rest with
+      | ok w => obtain ⟨n2, buf2, rest2⟩ := w; simp
+      | err e => simp
+      | panic s => exact absurd h2 (nextSkipBlocks_ne_panic _ _ s _ _ _)
+      | outOfFuel => simp
+  | err e => simp
+  | panic s => exact absurd h1 (nextSkipBlocks_ne_panic _ _ s _ _ _)
+  | outOfFuel => simp
+
+theorem sheetCells_ne_panic (ctx : Ctx) (bs : Bytes) (m : String) : sheetCells ctx bs ≠ .panic m := by
+  unfold sheetCells
+  cases h1 : newReader bs with
+  | ok v =>
+    obtain ⟨dims, rest⟩ := v
+    simp only [dimLen]
+    cases h2 : readCells ctx (bs.length + 1) rest 0 with
+    | ok cells => simp
+    | err e => simp
+    | panic s => exact absurd h2 (readCells_ne_panic ctx s _ _ _)
+    | outOfFuel => simp
+  | err e => simp
+  | panic s => exact absurd h1 (newReader_ne_panic bs s)
+  | outOfFuel => simp
+
+theorem sheetCells_ne_fuel (ctx : Ctx) (bs : Bytes) : sheetCells ctx bs ≠ .outOfFuel := by
+  unfold sheetCells
+  obtain ⟨n1, n2⟩ := newReader_total bs
+  cases h1 : newReader bs with
+  | ok v =>
+    obtain ⟨dims, rest⟩ := v
+    have hs := n2 dims rest h1
+    simp only [dimLen]
+    have hc := readCells_fuel ctx (bs.length + 1) rest 0 (by omega)
+    cases h2 : readCells ctx (bs.length + 1) rest 0 with
+    | ok cells => simp
+    | err e => simp
+    | panic s => simp
+    | outOfFuel => exact absurd h2 hc
+  | err e => simp
+  | panic s => simp
+  | outOfFuel => exact absurd h1 n1
+
+
+theorem recordsGo_ne_panic (m : String) : ∀ (f : Nat) (bs : Bytes), recordsGo f bs ≠ .panic m
+  | 0, _ => by simp [recordsGo]
+  | f+1, [] => by simp [recordsGo]
+  | f+1, b :: bs => by
+    rw [recordsGo]
+    cases hr : readRecord (b :: bs) with
+    | ok v =>
+      obtain ⟨t, p, rest⟩ := v
+      simp only
+      cases hc : recordsGo f rest with
+      | ok l => simp
+      | err e => simp
+      | panic s => exact absurd hc (recordsGo_ne_panic s f rest)
+      | outOfFuel => simp
+    | err e => simp
+    | panic s => exact absurd hr (readRecord_ne_panic _ s)
+    | outOfFuel => simp
+
+theorem recordsGo_fuel : ∀ (f : Nat) (bs : Bytes), bs.length < f → recordsGo f bs ≠ .outOfFuel
+  | 0, _, h => by omega
+  | f+1, [], _ => by simp [recordsGo]
+  | f+1, b :: bs, h => by
+    rw [recordsGo]
+    cases hr : readRecord (b :: bs) with
+    | ok v =>
+      obtain ⟨t, p, rest⟩ := v
+      have hs := readRecord_shrinks _ t p rest hr
+      simp only
+      cases hc : recordsGo f rest with
+      | ok l => simp
+      | err e => simp
+      | panic s => simp
+      | outOfFuel => exact absurd hc (recordsGo_fuel f rest (by omega))
+    | err e => simp
+    | panic s => simp
+    | outOfFuel => exact absurd hr (readRecord_ne_fuel _)
+
+theorem sstItems_ne_panic (m : String) : ∀ (n fuel : Nat) (buf bs : Bytes) (acc : List (List Nat)),
+    sstItems n fuel buf bs acc ≠ .panic m
+  | 0, _, _, _, _ => by simp [sstItems]
+  | n+1, fuel, buf, bs, acc => by
+    rw [sstItems]
+    cases h : nextSkipBlocks 0x0013 [(0x0023, some 0x0024)] fuel buf bs with
+    | ok v =>
+      obtain ⟨len, buf', rest⟩ := v
+      simp only
+      split
+      · simp
+      · cases hw : wideStr (buf'.drop 1) with
+        | ok w => obtain ⟨s, k⟩ := w; exact sstItems_ne_panic m n fuel buf' rest (s :: acc)
+        | err e => simp
+        | panic s => exact absurd hw (wideStr_ne_panic _ s)
+        | outOfFuel => simp
+    | err e => simp
+    | panic s => exact absurd h (nextSkipBlocks_ne_panic _ _ s _ _ _)
+    | outOfFuel => simp
+
+theorem sstItems_fuel : ∀ (n fuel : Nat) (buf bs : Bytes) (acc : List (List Nat)), bs.length < fuel →
+    sstItems n fuel buf bs acc ≠ .outOfFuel
+  | 0, _, _, _, _, _ => by simp [sstItems]
+  | n+1, fuel, buf, bs, acc, hf => by
+    rw [sstItems]
+    obtain ⟨k1, k2⟩ := nextSkipBlocks_total 0x0013 [(0x0023, some 0x0024)] fuel buf bs hf
+    cases h : nextSkipBlocks 0x0013 [(0x0023, some 0x0024)] fuel buf bs with
+    | ok v =>
+      obtain ⟨len, buf', rest⟩ := v
+      have hs := k2 len buf' rest h
+      simp only
+      split
+      · simp
+      · cases hw : wideStr (buf'.drop 1) with
+        | ok w => obtain ⟨s, k⟩ := w; exact sstItems_fuel n fuel buf' rest (s :: acc) (by omega)
+        | err e => simp
+        | panic s => simp
+        | outOfFuel => exact absurd hw (wideStr_ne_fuel _)
+    | err e => simp
+    | panic s => simp
+    | outOfFuel => exact absurd h k1
+
+theorem readSharedStrings_ne_panic (bs : Bytes) (m : String) : readSharedStrings bs ≠ .panic m := by
+  unfold readSharedStrings
+  cases h : nextSkipBlocks 0x009F [] (bs.length + 1) [] bs with
+  | ok v =>
+    obtain ⟨len, buf, rest⟩ := v
+    simp only
+    split
+    · simp
+    · exact sstItems_ne_panic m _ _ _ _ _
+  | err e => simp
+  | panic s => exact absurd h (nextSkipBlocks_ne_panic _ _ s _ _ _)
+  | outOfFuel => simp
+
+theorem readSharedStrings_ne_fuel (bs : Bytes) : readSharedStrings bs ≠ .outOfFuel := by
+  unfold readSharedStrings
+  obtain ⟨k1, k2⟩ := nextSkipBlocks_total 0x009F [] (bs.length + 1) [] bs (by omega)
+  cases h : nextSkipBlocks 0x009F [] (bs.length + 1) [] bs with
+  | ok v =>
+    obtain ⟨len, buf, rest⟩ := v
+    have hs := k2 len buf rest h
+    simp only
+    split
+    · simp
+    · exact sstItems_fuel _ _ _ _ _ (by omega)
+  | err e => simp
+  | panic s => simp
+  | outOfFuel => exact absurd h k1
 
 end Xlsb
